@@ -358,7 +358,18 @@ def fam_names(P, n, tier):
     for i in range(n):
         k = P.choice([1, 2, 3, 4, 5, 6, 8, 9, 12, 13, 17, 24, 33])
         buf = (P.choice([16, 24, 40, 64]), P.choice([-1, 16]))
-        sc = rand_desc(P, 'names%d' % i, ncmds=k, buf=buf, mutex=False, callbacks=False)
+        long_names = P.chance(0.12)
+        if long_names:
+            # names LONGER than the command buffer's capacity (names are never stored in the buffer, so they must
+            # still be matched): small buffer, few commands
+            buf = P.choice([(12, -1), (13, -1), (14, -1), (6, 8), (7, 6), (8, 16)])
+            asz = buf[0] if buf[1] >= 0 else buf[0] // 2
+            k = min(k, 4 * asz, 6)
+            base = '+' + ''.join(P.choice('FIRMWAEXYZ0') for _ in range(asz + P.randint(0, 3)))
+            nms = [base, base + 'A', base[:-1] + 'Q', '+' + 'Z' * (asz + 1), base + 'AB', 'S']
+            sc = rand_desc(P, 'names%d' % i, ncmds=k, buf=buf, mutex=False, callbacks=False, names=nms)
+        else:
+            sc = rand_desc(P, 'names%d' % i, ncmds=k, buf=buf, mutex=False, callbacks=False)
         for c in sc.cmds():
             c.descr = None
             if P.chance(0.7):
@@ -967,6 +978,8 @@ def fam_units(P, n, tier):
             roll = P.random()
             if roll < 0.35:
                 sc.op('t %d %d' % (P.choice(evs).ci, P.choice([T_READ, T_READ, T_TEST])))
+            elif roll < 0.45:
+                sc.op('q %d %d' % (P.choice(evs).ci, P.choice([T_READ, T_TEST, T_NONE])))
             elif roll < 0.7:
                 sc.service(P.choice([1, 1, 2, 3, 5, 9, 17]))
             else:
